@@ -176,6 +176,17 @@ func (a Access) key() string {
 var table []Access
 var seenAcc = map[string]bool{}
 
+// Return fact: an entry method hands out a slice- or map-typed field of its receiver by reference
+// (bare field, slice expression of it, or a local that was assigned one of those).
+type RetRef struct {
+	Type   string `json:"type"`
+	Field  string `json:"field"`
+	Method string `json:"method"`
+	Pos    string `json:"pos"`
+}
+
+var retRefs []RetRef
+
 func emit(a Access) {
 	sort.Slice(a.Locks, func(i, j int) bool { return a.Locks[i].Name < a.Locks[j].Name })
 	if k := a.key(); !seenAcc[k] {
@@ -258,6 +269,33 @@ type frame struct {
 	via    []string
 	depth  int
 	defers *[]string // locks released by deferred Unlock/RUnlock when the current function returns
+	alias  map[types.Object]string // entry frame only: local -> "Type.field" it aliases (slice/map fields)
+}
+
+// refField: e denotes (a slice expression of) a slice/map field of the receiver, or a local aliasing one.
+func (f *frame) refField(e ast.Expr) string {
+	for {
+		switch x := e.(type) {
+		case *ast.ParenExpr:
+			e = x.X
+			continue
+		case *ast.SliceExpr:
+			e = x.X
+			continue
+		}
+		break
+	}
+	if owner, fld, ok := f.recvField(e); ok {
+		switch fld.Type().Underlying().(type) {
+		case *types.Slice, *types.Map:
+			return owner + "." + fld.Name()
+		}
+		return ""
+	}
+	if id, ok := e.(*ast.Ident); ok && f.alias != nil {
+		return f.alias[f.a.l.info.Uses[id]]
+	}
+	return ""
 }
 
 // finish applies the deferred unlocks of a function body that was walked inline.
@@ -535,10 +573,35 @@ func (f *frame) stmt(s ast.Stmt) (terminated bool) {
 		for _, l := range x.Lhs {
 			f.lhs(l, x.Tok != token.ASSIGN && x.Tok != token.DEFINE)
 		}
+		if f.alias != nil && f.depth == 0 && len(x.Lhs) == len(x.Rhs) {
+			for i, l := range x.Lhs {
+				if id, ok := l.(*ast.Ident); ok {
+					obj := f.a.l.info.Defs[id]
+					if obj == nil {
+						obj = f.a.l.info.Uses[id]
+					}
+					if obj != nil {
+						if rf := f.refField(x.Rhs[i]); rf != "" {
+							f.alias[obj] = rf
+						} else {
+							delete(f.alias, obj)
+						}
+					}
+				}
+			}
+		}
 	case *ast.IncDecStmt:
 		f.lhs(x.X, true)
 	case *ast.ReturnStmt:
 		f.exprs(x.Results)
+		if f.alias != nil && f.depth == 0 {
+			for _, r := range x.Results {
+				if rf := f.refField(r); rf != "" {
+					t, fl, _ := strings.Cut(rf, ".")
+					retRefs = append(retRefs, RetRef{t, fl, f.entry, posOf(r)})
+				}
+			}
+		}
 		return true
 	case *ast.BlockStmt:
 		return f.stmts(x.List)
@@ -750,6 +813,7 @@ func (f *frame) expr(e ast.Expr) {
 		sub := *f
 		sub.held = copyHeld(f.held)
 		sub.defers = &[]string{}
+		sub.alias = nil
 		sub.stmts(x.Body.List)
 	case *ast.CallExpr:
 		f.call(x)
@@ -967,7 +1031,8 @@ func analyseStructs(l *loaded, names ...string) {
 		if len(decl.Recv.List) != 1 || len(decl.Recv.List[0].Names) != 1 {
 			continue // receiver unnamed: no field access possible
 		}
-		f := &frame{a: a, recv: l.info.Defs[decl.Recv.List[0].Names[0]], entry: fn.Name(), multi: true, held: map[string]bool{}}
+		f := &frame{a: a, recv: l.info.Defs[decl.Recv.List[0].Names[0]], entry: fn.Name(), multi: true, held: map[string]bool{},
+			alias: map[types.Object]string{}}
 		f.stmts(decl.Body.List)
 		nEntries++
 	}
@@ -1315,10 +1380,14 @@ func main() {
 	}
 	b.WriteString("].\n")
 	writeIfChanged(*out, []byte(b.String()))
+	if retRefs == nil {
+		retRefs = []RetRef{}
+	}
 	js, _ := json.MarshalIndent(struct {
-		Table []Access `json:"table"`
-		Excl  []Excl   `json:"excl"`
-	}{table, excl}, "", " ")
+		Table   []Access `json:"table"`
+		Excl    []Excl   `json:"excl"`
+		Returns []RetRef `json:"returns"`
+	}{table, excl, retRefs}, "", " ")
 	writeIfChanged(*jout, js)
 	fmt.Fprintf(os.Stderr, "locktable: %d accesses, %d exclusions\n", len(table), len(excl))
 }
